@@ -64,7 +64,8 @@ impl<T> SocksRequest<T> {
         let dport = socket.read_u16().await.context("read port")?;
         let dst = socket.read_u32().await.context("read dst")?;
         let client_id = read_null_terminated_string(socket).await?;
-        let target = if dst < 0x100 {
+        // SOCKS4a: 0.0.0.x with x != 0 announces a host name; 0.0.0.0 is an address like any other
+        let target = if dst != 0 && dst < 0x100 {
             let domain = read_null_terminated_string(socket).await?;
             TargetAddress::DomainPort(domain, dport)
         } else {
